@@ -287,7 +287,7 @@ PROPS["C14"] = {
               "opts": {"timeout": 20000, "witness": 6}, "reach": {"Harness_C14_5": ["returned", "idle"]}},
              {"pkg": "provider/cluster", "files": ["harness/C14/manager.go", "harness/C14/service.go", "harness/C14/hostname.go"], "shims": ["shim.go.tmpl", "shim_loop.go.tmpl"],
               "quick": ["Harness_C14_service_4", "Harness_C14_hostnames", "Harness_C14_hostnames_release"], "thorough": ["Harness_C14_service_5", "Harness_C14_hostnames", "Harness_C14_hostnames_release"],
-              "opts": {"timeout": 20000, "witness": 4}, "reach": {"Harness_C14_service_4": ["observed"], "Harness_C14_service_5": ["observed"], "Harness_C14_hostnames": ["reserved", "nothing-reserved", "released"], "Harness_C14_hostnames_release": ["released-and-retaken"]}}],
+              "opts": {"timeout": 20000, "witness": 4}, "reach": {"Harness_C14_service_4": ["observed", "released"], "Harness_C14_service_5": ["observed", "released"], "Harness_C14_hostnames": ["reserved", "nothing-reserved", "released"], "Harness_C14_hostnames_release": ["released-and-retaken"]}}],
     "bounds": {"quick": "(*deploymentManager).run with startDeploy/startTeardown/do/doDeploy/doTeardown: <=6 selects before shutdown is forced, then the post-loop drain; hostname reservation ok/failed, <=2 manifest updates, one lease-closed (teardown) request, deploy and teardown completing ok or failing at any scheduler-chosen point, provider shutdown at any point",
                "thorough": "8 and 10 selects"},
     "stubs": LOOP_STUBS + ["newDeploymentMonitor/newDeploymentWithdrawal -> already-finished stubs in the engine (natively the real ones run against the stub client)", "retry.Do -> up to 3 immediate attempts"],
